@@ -526,7 +526,56 @@ func (seqEngine) Gen(prop string, seed uint64, tier string) *Spec {
 	if rng.Chance(0.12) {
 		burstAt = rng.Intn(n)
 	}
+	drainAt := -1
+	if rng.Chance(0.10) {
+		drainAt = rng.Intn(n)
+	}
 	for i := 0; i < n; i++ {
+		if i == drainAt {
+			// a directory that grows over several blocks of entries and is then drained
+			// down to a few survivors (biased to the slots around block boundaries);
+			// removing it, or renaming an empty directory over it, must be refused until
+			// the last survivor is gone
+			g.emit(&Op{K: "mkdir", H: 0, N: fmt.Sprintf("drain%d", i)})
+			did := g.ops[len(g.ops)-1].ID
+			cnt := 28 + rng.Intn(45)
+			for j := 0; j < cnt; j++ {
+				g.emit(&Op{K: []string{"create", "create", "create", "mkdir", "symlink"}[rng.Intn(5)], H: did, N: fmt.Sprintf("e%d", j), How: 1, Len: 5, Pat: 1})
+			}
+			if rng.Chance(0.4) {
+				g.emit(&Op{K: "restart"})
+			}
+			keep := map[int]bool{}
+			for k := rng.Intn(3); k > 0; k-- {
+				if rng.Chance(0.7) {
+					// entries 32, 33, 64, 65 are the first of a block (after "." and "..")
+					keep[[]int{29, 30, 31, 32, 61, 62, 63, 64}[rng.Intn(8)]] = true
+				} else {
+					keep[rng.Intn(cnt)] = true
+				}
+			}
+			for j := 0; j < cnt; j++ {
+				if !keep[j] {
+					g.emit(&Op{K: "remove", H: did, N: fmt.Sprintf("e%d", j)})
+					g.emit(&Op{K: "rmdir", H: did, N: fmt.Sprintf("e%d", j)})
+				}
+			}
+			if rng.Chance(0.5) {
+				g.emit(&Op{K: "mkdir", H: 0, N: fmt.Sprintf("empty%d", i)})
+				g.emit(&Op{K: "rename", H: 0, N: fmt.Sprintf("empty%d", i), H2: 0, N2: fmt.Sprintf("drain%d", i)})
+			}
+			g.emit(&Op{K: "rmdir", H: 0, N: fmt.Sprintf("drain%d", i)})
+			g.emit(&Op{K: "readdirplus", H: did, Len: 100000})
+			for j := 0; j < cnt; j++ {
+				if keep[j] {
+					g.emit(&Op{K: "lookup", H: did, N: fmt.Sprintf("e%d", j)})
+					g.emit(&Op{K: "remove", H: did, N: fmt.Sprintf("e%d", j)})
+					g.emit(&Op{K: "rmdir", H: did, N: fmt.Sprintf("e%d", j)})
+				}
+			}
+			g.emit(&Op{K: "rmdir", H: 0, N: fmt.Sprintf("drain%d", i)})
+			continue
+		}
 		if i == burstAt {
 			// a directory full of names at / near the announced maximum length, then a restart
 			// (cold name cache) and look-ups, removals and re-creations of some of them
